@@ -1,5 +1,6 @@
 import Driver.SpecCmds
 import Driver.GenCmds
+import Driver.NumCmds
 
 open Driver
 
@@ -9,6 +10,9 @@ def handle (line : String) : String :=
   | some r => r
   | none =>
   match macroCmd ws with
+  | some r => r
+  | none =>
+  match numCmd ws with
   | some r => r
   | none => "err unknown-command"
 
